@@ -41,7 +41,17 @@
 //     x 4 topics x 2 domain ids; plus 6 document layouts (expired / future / foreign grants in front
 //     of the valid one, no valid grant) x 86 grants x 5 governance lists.  Validity windows there are
 //     >= 10 years away from the real clock (get_grant reads Utc::now()).
-// Not covered (stay outside): S/MIME signature verification, XML parsing, data tags (none on either
+//   validity strings (C18, tests xc_validity_*): through the real from_xml + find_grant: 2 windows (across
+//     29 February / a year end) x 7 x 7 UTC-offset notations {Z, +00:00, +05:00, -08:00, +14:00, none,
+//     +05:30} for not_before / not_after x 12 instants (true edges +-1 s, edges misread as UTC wall
+//     clock +-1 s, +-1 h, middle); through the real plugin (real clock): 4 windows with an edge 1 h
+//     from now x 7 x 7 notations.  Oracle: seconds since epoch by hand (no chrono);
+//   security attributes (C17, tests attrs_*, registered in obligations/C17.json): through the real
+//     DomainGovernanceDocument::from_xml (unsigned) + get_datawriter/_datareader/_topic_sec_attributes:
+//     5 metadata kinds x 3 data kinds x 16 enable_* flag combinations, the rule between two decoy
+//     rules; get_participant_sec_attributes: 5 x 5 x 5 rtps / discovery / liveliness kinds x 4 flag
+//     combinations; raw plugin mask bits (tables 60 / 62) and the decoded plugin attributes.
+// Not covered (stay outside): S/MIME signature verification, XML parsing of rules / criteria, data tags (none on either
 //   side), builtin topic names, entity partitions in the plugin calls (callers pass none), and the
 //   corner "no currently valid grant + topic left unprotected" (the code refuses with Err, the
 //   statement read literally allows; a permissions handle only exists for a participant that had a
@@ -56,6 +66,7 @@ mod verif_xc_permissions {
   use super::{
     super::{
       domain_governance_document::{BasicProtectionKind, DomainRule, ProtectionKind, TopicRule},
+      types::{BuiltinPluginEndpointSecurityAttributes, BuiltinPluginParticipantSecurityAttributes},
       AccessControlBuiltin,
     },
     *,
@@ -67,7 +78,7 @@ mod verif_xc_permissions {
       TopicBuiltinTopicData, WriterProxy,
     },
     security::{
-      access_control::{LocalEntityAccessControl, RemoteEntityAccessControl},
+      access_control::{LocalEntityAccessControl, ParticipantAccessControl, RemoteEntityAccessControl},
       types::{PublicationBuiltinTopicDataSecure, SubscriptionBuiltinTopicDataSecure},
     },
     structure::guid::{EntityKind, GUID},
@@ -1009,5 +1020,394 @@ mod verif_xc_permissions {
       n_docs >= 2_580 && st.n > 100_000 && st.grant_only > 10_000 && st.neither > 10_000 && st.no_grant > 2_000,
       "vacuity guard: {} documents, {} cases, {} granted only, {} neither, {} refused without valid grant", n_docs, st.n, st.grant_only, st.neither, st.no_grant
     );
+  }
+  // ================================================================== validity strings (C18)
+  // Oracle: instants as seconds since 1970-01-01T00:00:00Z computed BY HAND (loop over years and
+  // months with the Gregorian leap rule), never with chrono: the string Y-M-DTh:m:s<offset> denotes
+  // the instant civil_secs(Y,M,D,h,m,s) - offset; without offset the time is UTC (DDS Security 1.1
+  // 9.4.1.3.2.2); the grant is valid at `now` iff not_before <= now < not_after (now == not_after is
+  // never queried). Checked through the real DomainParticipantPermissions::from_xml + find_grant, and
+  // through the real plugin (check_create_datawriter, which reads the real clock) with windows whose
+  // edges are 1 h away from the real clock.
+  fn is_leap(y: i64) -> bool {
+    y % 4 == 0 && (y % 100 != 0 || y % 400 == 0)
+  }
+  fn month_days(y: i64, m: i64) -> i64 {
+    match m {
+      1 | 3 | 5 | 7 | 8 | 10 | 12 => 31,
+      4 | 6 | 9 | 11 => 30,
+      _ => if is_leap(y) { 29 } else { 28 },
+    }
+  }
+  fn civil_secs(y: i64, mo: i64, d: i64, h: i64, mi: i64, sec: i64) -> i64 {
+    let mut days = 0i64;
+    for yy in 1970..y {
+      days += if is_leap(yy) { 366 } else { 365 };
+    }
+    for mm in 1..mo {
+      days += month_days(y, mm);
+    }
+    days += d - 1;
+    days * 86400 + h * 3600 + mi * 60 + sec
+  }
+  /// inverse of civil_secs (for instants >= 1970)
+  fn secs_to_civil(t: i64) -> (i64, i64, i64, i64, i64, i64) {
+    let mut days = t.div_euclid(86400);
+    let rem = t.rem_euclid(86400);
+    let mut y = 1970;
+    loop {
+      let n = if is_leap(y) { 366 } else { 365 };
+      if days < n { break; }
+      days -= n;
+      y += 1;
+    }
+    let mut mo = 1;
+    loop {
+      let n = month_days(y, mo);
+      if days < n { break; }
+      days -= n;
+      mo += 1;
+    }
+    (y, mo, days + 1, rem / 3600, (rem % 3600) / 60, rem % 60)
+  }
+  /// (suffix written into the document, offset east of UTC in seconds)
+  const OFFSETS: [(&str, i64); 7] = [
+    ("Z", 0),
+    ("+00:00", 0),
+    ("+05:00", 5 * 3600),
+    ("-08:00", -8 * 3600),
+    ("+14:00", 14 * 3600),
+    ("", 0), // no time zone: UTC
+    ("+05:30", 5 * 3600 + 1800),
+  ];
+  /// the wall-clock reading `civil` (seconds, as if UTC) written with the given offset suffix
+  fn time_string(civil: i64, suffix: &str) -> String {
+    let (y, mo, d, h, mi, s) = secs_to_civil(civil);
+    format!("{:04}-{:02}-{:02}T{:02}:{:02}:{:02}{}", y, mo, d, h, mi, s, suffix)
+  }
+  fn validity_xml(subject: &str, not_before: &str, not_after: &str) -> String {
+    format!(
+      r#"<?xml version="1.0" encoding="UTF-8"?>
+<dds>
+  <permissions>
+    <grant name="xc">
+      <subject_name>{subject}</subject_name>
+      <validity>
+        <not_before>{not_before}</not_before>
+        <not_after>{not_after}</not_after>
+      </validity>
+      <allow_rule>
+        <domains><id>3</id></domains>
+        <publish><topics><topic>T</topic></topics></publish>
+      </allow_rule>
+      <default>DENY</default>
+    </grant>
+  </permissions>
+</dds>
+"#
+    )
+  }
+
+  #[test]
+  fn xc_validity_oracle_selfcheck() {
+    // guards the oracle's hand arithmetic with published epoch values
+    assert_eq!(civil_secs(1970, 1, 1, 0, 0, 0), 0);
+    assert_eq!(civil_secs(2000, 3, 1, 0, 0, 0), 951_868_800);
+    assert_eq!(civil_secs(2024, 1, 1, 0, 0, 0), 1_704_067_200);
+    assert_eq!(civil_secs(2024, 3, 1, 12, 30, 0), 1_709_296_200);
+    assert_eq!(civil_secs(2038, 1, 19, 3, 14, 7), 2_147_483_647);
+    for t in [0i64, 951_868_799, 951_868_800, 1_709_164_800, 1_709_296_200, 2_147_483_647] {
+      let (y, mo, d, h, mi, s) = secs_to_civil(t);
+      assert_eq!(civil_secs(y, mo, d, h, mi, s), t);
+    }
+    assert_eq!(time_string(1_709_296_200, "+05:00"), "2024-03-01T12:30:00+05:00");
+  }
+
+  #[test]
+  fn xc_validity_strings_denote_instants() {
+    let subject = DistinguishedName::parse("CN=alice,O=xc").unwrap();
+    // wall-clock readings of the two edges; the window crosses 29 February and a year end
+    let windows = [
+      (civil_secs(2024, 1, 1, 0, 0, 0), civil_secs(2024, 3, 1, 12, 30, 0)),
+      (civil_secs(2023, 12, 31, 23, 59, 59), civil_secs(2025, 1, 1, 0, 0, 1)),
+    ];
+    let mut n = 0u64;
+    let (mut n_valid, mut n_invalid, mut n_shifted_would_differ) = (0u64, 0u64, 0u64);
+    for (nb_civil, na_civil) in windows {
+      for (nb_suffix, nb_off) in OFFSETS {
+        for (na_suffix, na_off) in OFFSETS {
+          let nb_text = time_string(nb_civil, nb_suffix);
+          let na_text = time_string(na_civil, na_suffix);
+          let nb = nb_civil - nb_off; // the instants the strings denote
+          let na = na_civil - na_off;
+          let xml = validity_xml("CN=alice,O=xc", &nb_text, &na_text);
+          let doc = match DomainParticipantPermissions::from_xml(&xml) {
+            Ok(d) => d,
+            Err(e) => panic!(
+              "XC-WITNESS label=c18.validity.parse not_before={:?} not_after={:?}: the permissions document is rejected ({:?}) but both are xsd:dateTime values",
+              nb_text, na_text, e
+            ),
+          };
+          // instants around the true edges and around the edges misread as UTC wall clock
+          let mut nows = vec![nb - 1, nb, nb + 1, na - 1, na + 1, (nb + na) / 2];
+          for e in [nb_civil, na_civil] {
+            for t in [e - 1, e + 1] {
+              nows.push(t);
+            }
+          }
+          nows.push(nb - 3600);
+          nows.push(na + 3600);
+          for now in nows {
+            if now == na {
+              continue; // whether not_after itself is inside is an assumption of C18
+            }
+            let want = nb <= now && now < na;
+            let real = doc.find_grant(&subject, &Utc.timestamp_opt(now, 0).unwrap()).is_some();
+            assert!(
+              real == want,
+              "XC-WITNESS label=c18.validity not_before={:?} (= {} s since epoch) not_after={:?} (= {} s) now={} s ({} UTC): find_grant says the grant is {} but it is {} (valid iff not_before <= now < not_after as instants, UTC offset applied)",
+              nb_text, nb, na_text, na, now, time_string(now, "Z"),
+              if real { "valid" } else { "not valid" }, if want { "valid" } else { "not valid" }
+            );
+            if want { n_valid += 1 } else { n_invalid += 1 }
+            if (nb_civil <= now && now < na_civil) != want {
+              n_shifted_would_differ += 1;
+            }
+            n += 1;
+          }
+        }
+      }
+    }
+    assert!(
+      n > 1_000 && n_valid > 300 && n_invalid > 300 && n_shifted_would_differ > 100,
+      "vacuity guard: {} cases, {} valid, {} not valid, {} where ignoring the offset would change the answer", n, n_valid, n_invalid, n_shifted_would_differ
+    );
+  }
+
+  #[test]
+  fn xc_validity_strings_in_the_plugin() {
+    // the plugin reads the real clock: edges are +-1 h from it, the far edge is 10 years away
+    let now = std::time::SystemTime::now().duration_since(std::time::UNIX_EPOCH).unwrap().as_secs() as i64;
+    let subject = DistinguishedName::parse("CN=alice,O=xc").unwrap();
+    let qos = QosPolicies::qos_none();
+    let gov = [TopicRuleSpec { expr: "*", read: true, write: true }];
+    let far = 10 * YEAR;
+    // (not_before instant, not_after instant)
+    let windows = [(now - far, now - 3600), (now - far, now + 3600), (now + 3600, now + far), (now - 3600, now + far)];
+    let mut n = 0u64;
+    let (mut n_valid, mut n_invalid) = (0u64, 0u64);
+    for (nb, na) in windows {
+      for (nb_suffix, nb_off) in OFFSETS {
+        for (na_suffix, na_off) in OFFSETS {
+          // the wall-clock reading at offset o of the instant t is t + o
+          let nb_text = time_string(nb + nb_off, nb_suffix);
+          let na_text = time_string(na + na_off, na_suffix);
+          let doc = DomainParticipantPermissions::from_xml(&validity_xml("CN=alice,O=xc", &nb_text, &na_text))
+            .unwrap_or_else(|e| panic!("XC-WITNESS label=c18.validity.parse not_before={:?} not_after={:?}: rejected: {:?}", nb_text, na_text, e));
+          let mut ac = AccessControlBuiltin::new();
+          ac.domain_rules.insert(1, mk_domain_rule(&gov));
+          ac.domain_participant_permissions.insert(1, (subject.clone(), doc));
+          let want = nb <= now && now < na;
+          let r = ac.check_create_datawriter(1, 3, "T".to_string(), &qos);
+          let real = matches!(r, Ok(true));
+          assert!(
+            real == want,
+            "XC-WITNESS label=c18.validity.plugin not_before={:?} not_after={:?} real clock={} UTC topic=\"T\" (write-protected, grant allows publish): check_create_datawriter returned {:?} but the grant is {} at this instant",
+            nb_text, na_text, time_string(now, "Z"), r.map_err(|e| format!("{:?}", e)), if want { "valid => allowed" } else { "not valid => refused" }
+          );
+          if want { n_valid += 1 } else { n_invalid += 1 }
+          n += 1;
+        }
+      }
+    }
+    assert!(n >= 196 && n_valid >= 98 && n_invalid >= 98, "vacuity guard: {} cases, {} valid, {} not", n, n_valid, n_invalid);
+  }
+
+  // ================================================================== security attributes (C17)
+  // Oracle from DDS Security 1.1 (9.4.1.2.5/6, 9.4.2.3-9.4.2.6, tables 60/62): for a protection kind k
+  //   protected <=> k != NONE;  encrypted <=> k in {ENCRYPT, ENCRYPT_WITH_ORIGIN_AUTHENTICATION};
+  //   origin authenticated <=> k in {SIGN_WITH_ORIGIN_AUTHENTICATION, ENCRYPT_WITH_ORIGIN_AUTHENTICATION};
+  //   data_protection_kind d: is_payload_protected <=> d != NONE; is_payload_encrypted and
+  //   is_key_protected <=> d == ENCRYPT;  topic flags = the four enable_* elements;
+  //   plugin masks: bit 31 valid; endpoint 0x1 submessage encrypted, 0x2 payload encrypted, 0x4
+  //   submessage origin authenticated; participant 0x1/0x2/0x4 rtps/discovery/liveliness encrypted,
+  //   0x8/0x10/0x20 rtps/discovery/liveliness origin authenticated.
+  // Through the real DomainGovernanceDocument::from_xml (unsigned text; the signature stays out) and
+  // the real AccessControlBuiltin getters.
+  const KINDS: [&str; 5] = ["NONE", "SIGN", "ENCRYPT", "SIGN_WITH_ORIGIN_AUTHENTICATION", "ENCRYPT_WITH_ORIGIN_AUTHENTICATION"];
+  const DATA_KINDS: [&str; 3] = ["NONE", "SIGN", "ENCRYPT"];
+  fn k_protected(k: &str) -> bool { k != "NONE" }
+  fn k_encrypted(k: &str) -> bool { k.starts_with("ENCRYPT") }
+  fn k_origin(k: &str) -> bool { k.ends_with("_WITH_ORIGIN_AUTHENTICATION") }
+  fn topic_rule_xml(expr: &str, flags: [bool; 4], metadata: &str, data: &str) -> String {
+    format!(
+      "<topic_rule><topic_expression>{}</topic_expression>\
+       <enable_discovery_protection>{}</enable_discovery_protection>\
+       <enable_liveliness_protection>{}</enable_liveliness_protection>\
+       <enable_read_access_control>{}</enable_read_access_control>\
+       <enable_write_access_control>{}</enable_write_access_control>\
+       <metadata_protection_kind>{}</metadata_protection_kind>\
+       <data_protection_kind>{}</data_protection_kind></topic_rule>",
+      expr, flags[0], flags[1], flags[2], flags[3], metadata, data
+    )
+  }
+  fn governance_xml(unauth: bool, join: bool, rtps: &str, discovery: &str, liveliness: &str, topic_rules: &str) -> String {
+    format!(
+      "<?xml version=\"1.0\" encoding=\"utf-8\"?>\n<dds><domain_access_rules><domain_rule>\
+       <domains><id>3</id></domains>\
+       <allow_unauthenticated_participants>{}</allow_unauthenticated_participants>\
+       <enable_join_access_control>{}</enable_join_access_control>\
+       <discovery_protection_kind>{}</discovery_protection_kind>\
+       <liveliness_protection_kind>{}</liveliness_protection_kind>\
+       <rtps_protection_kind>{}</rtps_protection_kind>\
+       <topic_access_rules>{}</topic_access_rules>\
+       </domain_rule></domain_access_rules></dds>\n",
+      unauth, join, discovery, liveliness, rtps, topic_rules
+    )
+  }
+  fn plugin_with_governance(xml: &str) -> AccessControlBuiltin {
+    use super::super::domain_governance_document::DomainGovernanceDocument;
+    let dr = DomainGovernanceDocument::from_xml(xml)
+      .unwrap_or_else(|e| panic!("XC-WITNESS label=attrs.parse governance={}: rejected: {:?}", xml, e))
+      .find_rule(3)
+      .expect("domain rule for domain 3")
+      .clone();
+    let mut ac = AccessControlBuiltin::new();
+    ac.domain_rules.insert(1, dr);
+    ac
+  }
+
+  #[test]
+  fn attrs_endpoint_follow_governance_topic_rule() {
+    let mut n = 0u64;
+    let (mut n_payload_prot, mut n_sub_prot, mut n_sign_only) = (0u64, 0u64, 0u64);
+    for (mi, metadata) in KINDS.iter().enumerate() {
+      for (di, data) in DATA_KINDS.iter().enumerate() {
+        for bits in 0..16u32 {
+          let flags = [bits & 1 != 0, bits & 2 != 0, bits & 4 != 0, bits & 8 != 0];
+          // decoy rules in front (other topic) and behind (catch-all) with different values everywhere
+          let other_flags = [!flags[0], !flags[1], !flags[2], !flags[3]];
+          let rules = format!(
+            "{}{}{}",
+            topic_rule_xml("Other*", other_flags, KINDS[(mi + 2) % 5], DATA_KINDS[(di + 1) % 3]),
+            topic_rule_xml("Xc[TU]opic?", flags, metadata, data),
+            topic_rule_xml("*", other_flags, KINDS[(mi + 1) % 5], DATA_KINDS[(di + 2) % 3])
+          );
+          let xml = governance_xml(false, true, "NONE", "NONE", "NONE", &rules);
+          let ac = plugin_with_governance(&xml);
+          let topic = "XcTopic1";
+          let ctx = format!(
+            "topic_rule{{enable_discovery_protection={} enable_liveliness_protection={} enable_read_access_control={} enable_write_access_control={} metadata_protection_kind={} data_protection_kind={}}} topic={:?}",
+            flags[0], flags[1], flags[2], flags[3], metadata, data, topic
+          );
+          let want_mask: u32 = 0x8000_0000
+            | if k_encrypted(metadata) { 0x1 } else { 0 }
+            | if *data == "ENCRYPT" { 0x2 } else { 0 }
+            | if k_origin(metadata) { 0x4 } else { 0 };
+          let want = (
+            k_protected(metadata), // is_submessage_protected
+            *data != "NONE",       // is_payload_protected
+            *data == "ENCRYPT",    // is_key_protected
+            flags[2], flags[3], flags[0], flags[1], // read, write, discovery, liveliness
+            want_mask,
+          );
+          for which in ["get_datawriter_sec_attributes", "get_datareader_sec_attributes"] {
+            let a = if which == "get_datawriter_sec_attributes" {
+              ac.get_datawriter_sec_attributes(1, topic.to_string())
+            } else {
+              ac.get_datareader_sec_attributes(1, topic.to_string())
+            };
+            let a = a.unwrap_or_else(|e| panic!("XC-WITNESS label=attrs.endpoint {} call={}: Err({:?}) but the topic has a governance rule", ctx, which, e));
+            let t = &a.topic_security_attributes;
+            let real = (
+              a.is_submessage_protected, a.is_payload_protected, a.is_key_protected,
+              t.is_read_protected, t.is_write_protected, t.is_discovery_protected, t.is_liveliness_protected,
+              a.plugin_endpoint_attributes.0,
+            );
+            assert!(
+              real == want,
+              "XC-WITNESS label=attrs.endpoint {} call={}: (is_submessage_protected, is_payload_protected, is_key_protected, is_read_protected, is_write_protected, is_discovery_protected, is_liveliness_protected, plugin mask) = {:?} ({:#x}) but the governance rule means {:?} ({:#x})",
+              ctx, which, real, real.7, want, want.7
+            );
+            let dec = BuiltinPluginEndpointSecurityAttributes::try_from(a.plugin_endpoint_attributes.clone());
+            match dec {
+              Ok(d) => assert!(
+                (d.is_submessage_encrypted, d.is_submessage_origin_authenticated, d.is_payload_encrypted) == (k_encrypted(metadata), k_origin(metadata), *data == "ENCRYPT"),
+                "XC-WITNESS label=attrs.endpoint.plugin {} call={}: decoded (is_submessage_encrypted, is_submessage_origin_authenticated, is_payload_encrypted) = {:?}, required {:?}",
+                ctx, which, (d.is_submessage_encrypted, d.is_submessage_origin_authenticated, d.is_payload_encrypted), (k_encrypted(metadata), k_origin(metadata), *data == "ENCRYPT")
+              ),
+              Err(e) => panic!("XC-WITNESS label=attrs.endpoint.plugin {} call={}: plugin mask does not decode: {:?}", ctx, which, e),
+            }
+            n += 1;
+          }
+          let t = ac
+            .get_topic_sec_attributes(1, topic)
+            .unwrap_or_else(|e| panic!("XC-WITNESS label=attrs.topic {}: Err({:?})", ctx, e));
+          let real_t = (t.is_read_protected, t.is_write_protected, t.is_discovery_protected, t.is_liveliness_protected);
+          assert!(
+            real_t == (flags[2], flags[3], flags[0], flags[1]),
+            "XC-WITNESS label=attrs.topic {}: get_topic_sec_attributes (read, write, discovery, liveliness) = {:?}, governance says {:?}",
+            ctx, real_t, (flags[2], flags[3], flags[0], flags[1])
+          );
+          if want.1 { n_payload_prot += 1 }
+          if want.0 { n_sub_prot += 1 }
+          if *data == "SIGN" { n_sign_only += 1 }
+        }
+      }
+    }
+    assert!(n == 480 && n_payload_prot == 160 && n_sub_prot == 192 && n_sign_only == 80, "vacuity guard: {} {} {} {}", n, n_payload_prot, n_sub_prot, n_sign_only);
+  }
+
+  #[test]
+  fn attrs_participant_follow_governance_domain_rule() {
+    let mut n = 0u64;
+    for rtps in KINDS {
+      for discovery in KINDS {
+        for liveliness in KINDS {
+          for bits in 0..4u32 {
+            let (unauth, join) = (bits & 1 != 0, bits & 2 != 0);
+            let rules = topic_rule_xml("*", [false, false, true, true], "NONE", "NONE");
+            let xml = governance_xml(unauth, join, rtps, discovery, liveliness, &rules);
+            let ac = plugin_with_governance(&xml);
+            let ctx = format!(
+              "domain_rule{{allow_unauthenticated_participants={} enable_join_access_control={} rtps_protection_kind={} discovery_protection_kind={} liveliness_protection_kind={}}}",
+              unauth, join, rtps, discovery, liveliness
+            );
+            let a = ac
+              .get_participant_sec_attributes(1)
+              .unwrap_or_else(|e| panic!("XC-WITNESS label=attrs.participant {}: Err({:?})", ctx, e));
+            let want_mask: u32 = 0x8000_0000
+              | if k_encrypted(rtps) { 0x1 } else { 0 }
+              | if k_encrypted(discovery) { 0x2 } else { 0 }
+              | if k_encrypted(liveliness) { 0x4 } else { 0 }
+              | if k_origin(rtps) { 0x8 } else { 0 }
+              | if k_origin(discovery) { 0x10 } else { 0 }
+              | if k_origin(liveliness) { 0x20 } else { 0 };
+            let want = (unauth, join, k_protected(rtps), k_protected(discovery), k_protected(liveliness), want_mask);
+            let real = (
+              a.allow_unauthenticated_participants, a.is_access_protected, a.is_rtps_protected,
+              a.is_discovery_protected, a.is_liveliness_protected, a.plugin_participant_attributes.0,
+            );
+            assert!(
+              real == want,
+              "XC-WITNESS label=attrs.participant {}: (allow_unauthenticated_participants, is_access_protected, is_rtps_protected, is_discovery_protected, is_liveliness_protected, plugin mask) = {:?} ({:#x}) but the governance rule means {:?} ({:#x})",
+              ctx, real, real.5, want, want.5
+            );
+            let d = BuiltinPluginParticipantSecurityAttributes::try_from(a.plugin_participant_attributes.clone())
+              .unwrap_or_else(|e| panic!("XC-WITNESS label=attrs.participant.plugin {}: plugin mask does not decode: {:?}", ctx, e));
+            let real_d = (d.is_rtps_encrypted, d.is_discovery_encrypted, d.is_liveliness_encrypted,
+                          d.is_rtps_origin_authenticated, d.is_discovery_origin_authenticated, d.is_liveliness_origin_authenticated);
+            let want_d = (k_encrypted(rtps), k_encrypted(discovery), k_encrypted(liveliness), k_origin(rtps), k_origin(discovery), k_origin(liveliness));
+            assert!(
+              real_d == want_d,
+              "XC-WITNESS label=attrs.participant.plugin {}: decoded (rtps, discovery, liveliness encrypted; rtps, discovery, liveliness origin authenticated) = {:?}, required {:?}",
+              ctx, real_d, want_d
+            );
+            n += 1;
+          }
+        }
+      }
+    }
+    assert!(n == 500, "vacuity guard: {} cases", n);
   }
 }
